@@ -28,6 +28,17 @@ use std::panic::{catch_unwind, AssertUnwindSafe};
 
 const EPS: f64 = f64::EPSILON;
 
+thread_local! {
+    /// set per case: are the float parameters of moderate size, so that training terminates quickly?
+    /// (valid but extreme values such as alpha = f64::MAX or tolerance = 5e-324 make solvers crawl; the
+    /// comparison "valid builder = checked form" is then not exercised and counted as `fit_not_exercised`)
+    static MODERATE: std::cell::Cell<bool> = std::cell::Cell::new(true);
+    static NOT_EXERCISED: std::cell::Cell<u64> = std::cell::Cell::new(0);
+}
+fn set_moderate(vs: &[f64]) {
+    MODERATE.with(|c| c.set(vs.iter().all(|x| !x.is_finite() || (x.abs() <= 2.0 && (*x == 0.0 || x.abs() >= 1e-9)))));
+}
+
 fn dbg<T: Debug>(x: &T) -> String {
     format!("{:?}", x)
 }
@@ -111,7 +122,7 @@ where
         }
     }
     // fit / fit_with / transform on the unchecked builder
-    let fu = if r1.is_ok() && !finite { Ok(Ok(String::new())) } else { catch_unwind(AssertUnwindSafe(|| fit_u(&p))) };
+    let fu = if r1.is_ok() && (!finite || !MODERATE.with(|c| c.get())) { Ok(Ok(String::new())) } else { catch_unwind(AssertUnwindSafe(|| fit_u(&p))) };
     let s_fit = match &r1 {
         Err((t, want)) => match fu {
             Ok(Err(e)) if &e == want => format!("err:{}", t),
@@ -131,6 +142,10 @@ where
         // accepted but non-finite values (NaN / inf slip through several guards) are outside the property;
         // training with them is not exercised
         Ok(_) if !finite => "skipped".to_string(),
+        Ok(_) if !MODERATE.with(|c| c.get()) => {
+            NOT_EXERCISED.with(|c| c.set(c.get() + 1));
+            "as-checked".to_string()
+        }
         Ok(_) => {
             let fc = catch_unwind(AssertUnwindSafe(|| fit_c(p.check_ref().ok().unwrap())));
             let same = match (&fu, &fc) {
@@ -289,7 +304,7 @@ macro_rules! res {
 
 pub fn run(em: &mut Em, rng: &mut Rng) {
     let th = em.thorough();
-    let cap = if th { 4000 } else { 300 };
+    let cap = if th { 4000 } else { 1000 };
     let fg = fgrid(th);
     let cg = cgrid(th);
     let nf = fg.len();
@@ -303,6 +318,7 @@ pub fn run(em: &mut Em, rng: &mut Rng) {
         let (k, r, tol, mi) = (cg[t[0]], cg[t[1]], fg[t[2]], cg[t[3]]);
         em.count("builder:KMeans");
         em.case(format!("grid b=KMeans n_clusters={} n_runs={} tolerance={} max_n_iterations={}", k, r, h(tol), mi), |ctx| {
+            set_moderate(&[tol]);
             let p = linfa_clustering::KMeans::params_with(k, rng7(), linfa_nn::distance::L2Dist).n_runs(r).tolerance(tol).max_n_iterations(mi as u64);
             let viol = first(&[(k >= 1, "n_clusters>=1"), (r >= 1, "n_runs>=1"), (pos(tol), "tolerance>0"), (mi >= 1, "max_n_iterations>=1")]);
             let ds = DatasetBase::from(xs());
@@ -314,6 +330,7 @@ pub fn run(em: &mut Em, rng: &mut Rng) {
         let (mp, tol) = (cg[t[0]], fg[t[1]]);
         em.count("builder:Dbscan");
         em.case(format!("grid b=Dbscan min_points={} tolerance={}", mp, h(tol)), |ctx| {
+            set_moderate(&[tol]);
             let p = linfa_clustering::Dbscan::params(mp).tolerance(tol);
             let viol = first(&[(mp >= 2, "min_points>=2"), (pos(tol), "tolerance>0")]);
             let x = xs();
@@ -327,6 +344,7 @@ pub fn run(em: &mut Em, rng: &mut Rng) {
         let (tol, mp) = (fg[t[0]], cg[t[1]]);
         em.count("builder:Optics");
         em.case(format!("grid b=Optics tolerance={} min_points={}", h(tol), mp), |ctx| {
+            set_moderate(&[tol]);
             let p = linfa_clustering::Optics::params(mp).tolerance(tol);
             let viol = first(&[(pos(tol), "tolerance>0"), (mp >= 2, "min_points>=2")]);
             let x = xs();
@@ -338,6 +356,7 @@ pub fn run(em: &mut Em, rng: &mut Rng) {
         let (k, tol, reg, r, mi) = (cg[t[0]], fg[t[1]], fg[t[2]], cg[t[3]], cg[t[4]]);
         em.count("builder:Gmm");
         em.case(format!("grid b=Gmm n_clusters={} tolerance={} reg_covar={} n_runs={} max_n_iter={}", k, h(tol), h(reg), r, mi), |ctx| {
+            set_moderate(&[tol, reg]);
             let p = linfa_clustering::GaussianMixtureModel::params_with_rng(k, rng7()).tolerance(tol).reg_covariance(reg).n_runs(r as u64).max_n_iterations(mi as u64);
             let viol = first(&[(k >= 1, "n_clusters>=1"), (pos(tol), "tolerance>0"), (nonneg(reg), "reg_covar>=0"), (r >= 1, "n_runs>=1"), (mi >= 1, "max_n_iter>=1")]);
             let ds = DatasetBase::from(xs());
@@ -351,11 +370,13 @@ pub fn run(em: &mut Em, rng: &mut Rng) {
         let finite = pen.is_finite() && l1.is_finite() && tol.is_finite();
         em.count("builder:ElasticNet");
         em.case(format!("grid b=ElasticNet task=single penalty={} l1_ratio={} tolerance={}", h(pen), h(l1), h(tol)), |ctx| {
+            set_moderate(&[pen, l1, tol]);
             let p = linfa_elasticnet::ElasticNet::<f64>::params().penalty(pen).l1_ratio(l1).tolerance(tol).max_iterations(50);
             let ds = DatasetBase::new(xs(), ys_f());
             probe(ctx, "ElasticNet", || p.clone(), viol.clone(), finite, |p| dbg(p), |c| dbg(c), |e| dbg(&e), |p| res!(p.fit(&ds)), |c| res!(c.fit(&ds)))
         });
         em.case(format!("grid b=ElasticNet task=multi penalty={} l1_ratio={} tolerance={}", h(pen), h(l1), h(tol)), |ctx| {
+            set_moderate(&[pen, l1, tol]);
             let p = linfa_elasticnet::MultiTaskElasticNet::<f64>::params().penalty(pen).l1_ratio(l1).tolerance(tol).max_iterations(50);
             let ds = DatasetBase::new(xs(), ys_2());
             probe(ctx, "ElasticNet", || p.clone(), viol.clone(), finite, |p| dbg(p), |c| dbg(c), |e| dbg(&e), |p| res!(p.fit(&ds)), |c| res!(c.fit(&ds)))
@@ -372,6 +393,7 @@ pub fn run(em: &mut Em, rng: &mut Rng) {
         em.count("builder:Logistic");
         let init1 = init.clone();
         em.case(format!("grid b=Logistic kind=binary alpha={} gradient_tolerance={} initial_params={}", h(al), h(gt), init_s), |ctx| {
+            set_moderate(&[al, gt]);
             let mut p = linfa_logistic::LogisticRegression::<f64>::default().alpha(al).gradient_tolerance(gt).max_iterations(20);
             if let Some(v) = init1 {
                 p = p.initial_params(Array1::from(v));
@@ -383,6 +405,7 @@ pub fn run(em: &mut Em, rng: &mut Rng) {
         let init2 = init.clone();
         let init_s2 = init.as_ref().map_or("none".to_string(), |v| v.iter().flat_map(|x| vec![h(*x), h(*x)]).collect::<Vec<_>>().join(","));
         em.case(format!("grid b=Logistic kind=multi alpha={} gradient_tolerance={} initial_params={}", h(al), h(gt), init_s2), |ctx| {
+            set_moderate(&[al, gt]);
             let mut p = linfa_logistic::MultiLogisticRegression::<f64>::default().alpha(al).gradient_tolerance(gt).max_iterations(20);
             if let Some(v) = init2 {
                 p = p.initial_params(Array2::from_shape_fn((3, 2), |(i, _)| v[i]));
@@ -396,6 +419,7 @@ pub fn run(em: &mut Em, rng: &mut Rng) {
         let (al, pw) = (fg[t[0]], fg[t[1]]);
         em.count("builder:Tweedie");
         em.case(format!("grid b=Tweedie alpha={} power={}", h(al), h(pw)), |ctx| {
+            set_moderate(&[al, pw]);
             let p = linfa_linear::TweedieRegressor::<f64>::params().alpha(al).power(pw).max_iter(20);
             let viol = first(&[(nonneg(al), "alpha>=0"), (pw.is_finite() && (pw <= 0.0 || pw >= 1.0), "power not in (0,1)")]);
             let ds = DatasetBase::new(xs(), ys_f());
@@ -428,6 +452,7 @@ pub fn run(em: &mut Em, rng: &mut Rng) {
             };
             em.count("builder:Svm");
             em.case(format!("grid b=Svm platt.maxiter={} platt.minstep={} platt.sigma={} solver_params_eps={} c={} nu={}", mi, h(ms), h(sg), h(eps), c_s, nu_s), |ctx| {
+                set_moderate(&[ms, sg, eps]);
                 let platt = Platt::<f64, ()>::params().maxiter(mi).minstep(ms).sigma(sg);
                 let mut p = linfa_svm::Svm::<f64, bool>::params().eps(eps).with_platt_params(platt);
                 p = match &w {
@@ -449,6 +474,7 @@ pub fn run(em: &mut Em, rng: &mut Rng) {
         let x = *v;
         em.count("builder:DecisionTree");
         em.case(format!("grid b=DecisionTree min_impurity_decrease={}", h(x)), |ctx| {
+            set_moderate(&[x]);
             let p = linfa_trees::DecisionTree::<f64, usize>::params().min_impurity_decrease(x);
             let viol = first(&[(x.is_finite() && x >= EPS, "min_impurity_decrease>=eps")]);
             let ds = DatasetBase::new(xs(), ys_u());
@@ -464,6 +490,7 @@ pub fn run(em: &mut Em, rng: &mut Rng) {
         let viol = first(&[(nonneg(x), "smoothing>=0")]);
         for with in [false, true] {
             em.case(format!("grid b=GaussianNb via={} var_smoothing={}", if with { "fit_with" } else { "fit" }, h(x)), |ctx| {
+                set_moderate(&[x]);
                 let p = linfa_bayes::GaussianNb::<f64, usize>::params().var_smoothing(x);
                 let ds = DatasetBase::new(xs(), ys_u());
                 if with {
@@ -473,6 +500,7 @@ pub fn run(em: &mut Em, rng: &mut Rng) {
                 }
             });
             em.case(format!("grid b=MultinomialNb via={} alpha={}", if with { "fit_with" } else { "fit" }, h(x)), |ctx| {
+                set_moderate(&[x]);
                 let p = linfa_bayes::MultinomialNb::<f64, usize>::params().alpha(x);
                 let ds = DatasetBase::new(xs(), ys_u());
                 if with {
@@ -488,6 +516,7 @@ pub fn run(em: &mut Em, rng: &mut Rng) {
         let (l1, l2, al, be) = (fg[t[0]], fg[t[1]], fg[t[2]], fg[t[3]]);
         em.count("builder:Ftrl");
         em.case(format!("grid b=Ftrl l1_ratio={} l2_ratio={} alpha={} beta={}", h(l1), h(l2), h(al), h(be)), |ctx| {
+            set_moderate(&[l1, l2, al, be]);
             let p = linfa_ftrl::Ftrl::<f64>::params_with_rng(rng7()).l1_ratio(l1).l2_ratio(l2).alpha(al).beta(be);
             let viol = first(&[(unit(l1), "0<=l1_ratio<=1"), (unit(l2), "0<=l2_ratio<=1"), (nonneg(al), "alpha>=0"), (nonneg(be), "beta>=0")]);
             let ds = DatasetBase::new(xs(), ys_b());
@@ -503,6 +532,7 @@ pub fn run(em: &mut Em, rng: &mut Rng) {
         macro_rules! pls {
             ($name:expr, $ty:ident) => {
                 em.case(format!("grid b=PlsMacro kind={} tolerance={} max_iter={}", $name, h(tol), mi), |ctx| {
+                    set_moderate(&[tol]);
                     let mk = || linfa_pls::$ty::<f64>::params(1).tolerance(tol).max_iterations(mi);
                     let ds = DatasetBase::new(xs(), ys_2());
                     // these builders implement neither Debug nor Clone: the guarded values are not readable
@@ -522,6 +552,7 @@ pub fn run(em: &mut Em, rng: &mut Rng) {
         let (pe, th_) = (fg[t[0]], fg[t[1]]);
         em.count("builder:TSne");
         em.case(format!("grid b=TSne perplexity={} approx_threshold={}", h(pe), h(th_)), |ctx| {
+            set_moderate(&[pe, th_]);
             let p = linfa_tsne::TSneParams::embedding_size_with_rng(2, rng7()).perplexity(pe).approx_threshold(th_).max_iter(3);
             let viol = first(&[(nonneg(pe), "perplexity>=0"), (nonneg(th_), "approx_threshold>=0")]);
             // the embedding itself is only computed for parameter values bhtsne handles quickly
@@ -536,6 +567,7 @@ pub fn run(em: &mut Em, rng: &mut Rng) {
         let x = *v;
         em.count("builder:FastIca");
         em.case(format!("grid b=FastIca tol={}", h(x)), |ctx| {
+            set_moderate(&[x]);
             let p = linfa_ica::fast_ica::FastIca::<f64>::params().tol(x).ncomponents(2).random_state(3).max_iter(10);
             let viol = first(&[(nonneg(x), "tol>=0")]);
             let ds = DatasetBase::from(xs());
@@ -547,6 +579,7 @@ pub fn run(em: &mut Em, rng: &mut Rng) {
         let (st, es) = (cg[t[0]], cg[t[1]]);
         em.count("builder:DiffusionMap");
         em.case(format!("grid b=DiffusionMap steps={} embedding_size={}", st, es), |ctx| {
+            set_moderate(&[]);
             let p = linfa_reduction::DiffusionMap::<f64>::params(es).steps(st);
             let viol = first(&[(st >= 1, "steps>=1"), (es >= 1, "embedding_size>=1")]);
             let k = kernel();
@@ -573,6 +606,7 @@ pub fn run(em: &mut Em, rng: &mut Rng) {
             macro_rules! rp {
                 ($kind:expr, $ty:ident) => {
                     em.case(format!("grid b=RandomProjection kind={} params={}", $kind, s), |ctx| {
+                        set_moderate(&[]);
                         let mk = || {
                             let mut p = linfa_reduction::random_projection::$ty::<f64>::params_with_rng(rng7());
                             if let Some(d) = d {
@@ -611,6 +645,7 @@ pub fn run(em: &mut Em, rng: &mut Rng) {
             };
             em.count("builder:Hierarchical");
             em.case(format!("grid b=Hierarchical stopping={}", s), |ctx| {
+                set_moderate(&[]);
                 let mut p = linfa_hierarchical::HierarchicalCluster::<f64>::default();
                 if let Some(d) = d {
                     p = p.num_clusters(d);
@@ -633,6 +668,7 @@ pub fn run(em: &mut Em, rng: &mut Rng) {
             let (a, b, lo, hi, rok) = (ng[t[0]], ng[t[1]], f32g[t[2]], f32g[t[3]], t[4] == 1);
             em.count("builder:CountVectorizer");
             em.case(format!("grid b=CountVectorizer n_gram_range={},{} document_frequency={},{} split_regex_ok={}", a, b, h(lo), h(hi), rok as u8), |ctx| {
+                set_moderate(&[lo, hi]);
                 let mut p = linfa_preprocessing::CountVectorizer::params().n_gram_range(a, b).document_frequency(lo as f32, hi as f32);
                 if !rok {
                     p = p.tokenizer(linfa_preprocessing::Tokenizer::Regex("(unclosed".to_string()));
@@ -658,6 +694,7 @@ pub fn run(em: &mut Em, rng: &mut Rng) {
         let (mi, ms, sg) = (cg[t[0]], fg[t[1]], fg[t[2]]);
         em.count("builder:Platt");
         em.case(format!("grid b=Platt maxiter={} minstep={} sigma={}", mi, h(ms), h(sg)), |ctx| {
+            set_moderate(&[ms, sg]);
             let p = Platt::<f64, FirstColumn>::params().maxiter(mi).minstep(ms).sigma(sg);
             let viol = first(&[(mi >= 1, "maxiter>=1"), (nonneg(ms), "minstep>=0"), (nonneg(sg), "sigma>=0")]);
             let ds = DatasetBase::new(xs(), ys_b());
@@ -665,5 +702,6 @@ pub fn run(em: &mut Em, rng: &mut Rng) {
                 |p| res!(p.fit_with(FirstColumn, &ds)), |c| res!(c.fit_with(FirstColumn, &ds)))
         });
     }
+    em.count_n("fit_not_exercised(extreme valid values)", NOT_EXERCISED.with(|c| c.get()));
     let _ = Pr::new(0.5);
 }
